@@ -130,14 +130,18 @@ impl ReqCase {
         }
     }
     pub fn caller_host_str(&self) -> Option<&'static str> {
-        self.caller_host.map(|h| ["other.test", "a.test:99", "EXAMPLE.COM", "[::1]:8"][h as usize % 4])
+        self.caller_host.map(|h| ["other.test", "a.test:99", "EXAMPLE.COM", "[::1]:8", "t\u{e9}st.example (as the single byte 0xE9: opaque header bytes)"][h as usize % 5])
+    }
+    /// the bytes of the caller's Host header: a header value is opaque bytes, not text
+    pub fn caller_host_bytes(&self) -> Option<&'static [u8]> {
+        self.caller_host.map(|h| [&b"other.test"[..], &b"a.test:99"[..], &b"EXAMPLE.COM"[..], &b"[::1]:8"[..], &b"t\xe9st.example"[..]][h as usize % 5])
     }
     /// Builds the request; None when the http crate rejects the URI (not a well-typed request).
     pub fn build(&self) -> Option<http::Request<B>> {
         let uri: http::Uri = self.uri_string().parse().ok()?;
         let mut b = http::Request::builder().method(self.method()).version(self.version()).uri(uri);
-        if let Some(h) = self.caller_host_str() {
-            b = b.header(http::header::HOST, h);
+        if let Some(h) = self.caller_host_bytes() {
+            b = b.header(http::header::HOST, http::HeaderValue::from_bytes(h).ok()?);
         }
         if self.preset & 1 != 0 {
             b = b.header(http::header::CONNECTION, "keep-alive, x-custom");
@@ -379,9 +383,14 @@ pub fn check_seen(c: &ReqCase, seen: &Seen, leg: &str, rep: &mut CaseReport) {
         }
         // Host header
         let hosts: Vec<&http::HeaderValue> = seen.headers.get_all("host").iter().collect();
-        match c.caller_host_str() {
+        match c.caller_host_bytes() {
+            // (the wire leg re-parses the captured head as text: opaque bytes are not compared there)
+            Some(h) if leg == "wire" && !h.is_ascii() => {
+                let _ = h;
+            }
             Some(h) => {
-                if hosts.len() != 1 || hosts[0].as_bytes() != h.as_bytes() {
+                let h = String::from_utf8_lossy(h);
+                if hosts.len() != 1 || hosts[0].as_bytes() != c.caller_host_bytes().unwrap_or_default() {
                     rep.violate("C13/h1-caller-host-overridden", format!("{desc}; caller supplied Host {h}"));
                 }
             }
@@ -652,6 +661,11 @@ impl Engine for ReqEngine {
                     let mut parts = first.splitn(3, ' ');
                     let m = parts.next().unwrap_or("");
                     let target = parts.next().unwrap_or("").to_string();
+                    // "... and HTTP/1.1 otherwise": whatever version label the caller's request carried
+                    let proto = parts.next().unwrap_or("");
+                    if proto != "HTTP/1.1" {
+                        rep.violate("C13/wire-h1-request-line-not-http11", format!("request labelled {:?} on an HTTP/1 connection went out as {first:?}", c.version()));
+                    }
                     let mut headers = http::HeaderMap::new();
                     for l in lines {
                         if l.is_empty() {
@@ -711,7 +725,7 @@ pub fn strategy() -> impl proptest::strategy::Strategy<Value = ReqCase> {
         prop_oneof![6 => Just(0u8), 2 => Just(1u8), 1 => Just(2u8), 1 => Just(3u8)],
         prop_oneof![3 => Just(0u8), 2 => 1u8..6, 2 => Just(6u8), 2 => 6u8..11],
         prop_oneof![4 => Just(0u8), 3 => Just(1u8), 1 => Just(2u8), 1 => Just(3u8), 1 => Just(4u8)],
-        prop_oneof![3 => Just(None), 1 => (0u8..4).prop_map(Some)],
+        prop_oneof![3 => Just(None), 1 => (0u8..5).prop_map(Some)],
         prop_oneof![2 => Just(0u8), 3 => any::<u8>()],
         any::<bool>(),
         prop_oneof![2 => Just(0u8), 1 => 1u8..40],
